@@ -3,6 +3,12 @@ import CashewsVerif.Model.Glob
 /-
 Driver for C13.  One request line in, one answer line out.
 
+Values: `i:<int>`, `t:<n>` (an opaque string), `n` (a stored Python `None`) as in Driver/Proto, plus
+`e:<c>` with `c` one of `s b l f d z u T` — the other values the pattern commands must treat as plain values:
+`''`, `b''`, `[]`, `False`, `{}`, `0.0`, `()`, `True` (opaque to the model: `Val.tok (1000 + position)`) — and
+`b:<n>` a bit-field object (`Bitarray`; model `Val.nums [n]`, the one kind of value `get_match` skips).
+`-` in an answer is "no value" (the default), which `get_match` must never yield.
+
 Strings (patterns, key texts) travel as `x` followed by their code points in decimal joined by `.`
 (`x97.46.42` = "a.*", `x` = the empty string).  Keys of the store are numbers = positions in the
 universe declared by `univ`.
@@ -13,7 +19,7 @@ universe declared by `univ`.
   getmatch <pat>                   -> model=<id>=<val>;… spec=…
   delmatch <pat>                   -> model=<live ids afterwards> spec=<live ids not matching>
   txbegin                          -> ok                       transaction over the current store
-  txset <id> <val> <ttl|->         -> ok
+  txset <id> <val> <ttl|->         -> ok                       (bad-op for a bit-field value)
   txdel <id>                       -> ok
   txadv <dt>                       -> ok
   txscan / txgetmatch / txdelmatch <pat>   -> model=… spec=…   spec: the same command on Tx.direct, by glob
@@ -44,24 +50,48 @@ def sortNat (l : List Nat) : List Nat := (l.toArray.qsort (· < ·)).toList
 def showIds (l : List Nat) : String :=
   if l.isEmpty then "-" else ",".intercalate ((sortNat l).map toString)
 
+/-- the falsy / odd Python values of the harness's value alphabet, in the order of their model tokens -/
+def extraVals : List String := ["s", "b", "l", "f", "d", "z", "u", "T"]
+
+/-- which stored values are `Bitarray` objects: in this driver, `Val.nums` -/
+def isBits : Val → Bool
+  | .nums _ => true
+  | _ => false
+
+def parseValG? (s : String) : Option Val :=
+  match s.splitOn ":" with
+  | ["b", x] => x.toNat?.map fun n => .nums [n]
+  | ["e", c] => (extraVals.idxOf? c).map fun i => .tok (1000 + i)
+  | ["t", x] => x.toNat?.bind fun n => if n < 1000 then some (.tok n) else none
+  | _ => parseVal? s
+
+def showValG : Val → String
+  | .nums [n] => s!"b:{n}"
+  | .tok n => if n < 1000 then s!"t:{n}" else s!"e:{extraVals.getD (n - 1000) "?"}"
+  | v => showVal v
+
+def showOptValG : Option Val → String
+  | none => "-"
+  | some v => showValG v
+
 def showPairs (l : List (Nat × Option Val)) : String :=
   if l.isEmpty then "-"
   else
     let sorted := (l.toArray.qsort (fun a b => a.1 < b.1)).toList
-    ";".intercalate (sorted.map fun kv => s!"{kv.1}={showOptVal kv.2}")
+    ";".intercalate (sorted.map fun kv => s!"{kv.1}={showOptValG kv.2}")
 
 def parseEntry? (s : String) : Option (Nat × Entry) :=
   match s.splitOn "/" with
   | [k, dl, v] => do
     let k ← k.toNat?
     let dl ← parseTtl? dl
-    let v ← parseVal? v
+    let v ← parseValG? v
     pure (k, ⟨v, dl⟩)
   | _ => none
 
-/-- spec of get_match: live matching keys with their values -/
+/-- spec of get_match: live matching keys that hold a value (anything but a bit-field object), each with that value -/
 def getMatchSpec (name : Nat → List Char) (m : Mem) (pat : List Char) : List (Nat × Option Val) :=
-  (m.store.filter fun ke => ke.2.live m.now && glob pat (name ke.1)).map fun ke => (ke.1, some ke.2.val)
+  (m.store.filter fun ke => (ke.2.live m.now && glob pat (name ke.1)) && !isBits ke.2.val).map fun ke => (ke.1, some ke.2.val)
 
 /-- spec of delete_match: the live keys that do not match stay -/
 def afterDeleteSpec (name : Nat → List Char) (m : Mem) (pat : List Char) : List Nat :=
@@ -86,7 +116,7 @@ def step (st : St) (line : String) : St × String :=
   | ["getmatch", p] =>
     match decodeStr? p with
     | some pat =>
-      let r := getMatch st.name st.mem pat
+      let r := getMatch st.name isBits st.mem pat
       ({ st with mem := r.1 }, answer (showPairs r.2) (showPairs (getMatchSpec st.name st.mem pat)))
     | none => (st, "bad-op")
   | ["delmatch", p] =>
@@ -98,8 +128,10 @@ def step (st : St) (line : String) : St × String :=
   | ["txbegin"] =>
     ({ st with tx := { now := st.mem.now, backend := st.mem.store, overlay := [], del := [] } }, "ok")
   | ["txset", k, v, ttl] =>
-    match k.toNat?, parseVal? v, parseTtl? ttl with
-    | some k, some v, some ttl => ({ st with tx := st.tx.set k v ttl }, "ok")
+    match k.toNat?, parseValG? v, parseTtl? ttl with
+    | some k, some v, some ttl =>
+      -- a transaction never buffers a bit-field object (`incr_bits` is proxied): outside the model
+      if isBits v then (st, "bad-op") else ({ st with tx := st.tx.set k v ttl }, "ok")
     | _, _, _ => (st, "bad-op")
   | ["txdel", k] =>
     match k.toNat? with
@@ -116,7 +148,7 @@ def step (st : St) (line : String) : St × String :=
   | ["txgetmatch", p] =>
     match decodeStr? p with
     | some pat =>
-      let r := st.tx.getMatch st.name pat
+      let r := st.tx.getMatch st.name isBits pat
       ({ st with tx := r.1 }, answer (showPairs r.2) (showPairs (getMatchSpec st.name st.tx.direct pat)))
     | none => (st, "bad-op")
   | ["txdelmatch", p] =>
